@@ -120,7 +120,7 @@ def test_D19_unsigned_scaled_readback_with_negative_bias():
 
 
 def test_D20_bin_frac_dot_on_wide_arrays():
-    assert Fxp(np.array([-5, 7], dtype=object), True, 65, 0, raw=True).bin(frac_dot=True)[0].endswith('1011.')
+    assert Fxp(np.array([-2 ** 64, 7], dtype=object), True, 65, 0, raw=True).bin(frac_dot=True)[1].endswith('0111.')
 
 
 def test_D21_D22_wide_strings_parse_back():
